@@ -191,9 +191,23 @@ def check(run, F, tier):
                 continue
             if cur[fld] != ("EMPTY",):
                 bad = (p, cur[fld])
-            for k, mgr, x, truth, site in idiom_events(p):
+            evs_ = idiom_events(p)
+            for k, mgr, x, truth, site in evs_:
                 if k == "release" and fld in repr(conn.expand_all(interned["notify_closed"], x)):
                     released = True
+            # every id actually drained from the set on this path goes through the is_used_id guard: an element that is
+            # drawn (the iterator yielded Some / the per-element closure ran) and then dropped under some other condition
+            # (role, version, ...) leaks its identifier
+            drawn = False
+            for e in p.effects:
+                if e[0] == "call" and e[1].endswith("::next") and fld in repr(conn.expand_all(interned["notify_closed"], e[3])) \
+                        and e[4][0] == "sym" and conn.possible(F, p, e[4][1], "std::option::Option") == {"Some"}:
+                    drawn = True
+                if e[0] == "enter" and len(e) > 2 and fld in repr(conn.expand_all(interned["notify_closed"], e[2])) and "elem" in repr(e[2]):
+                    drawn = True
+            consulted = any(k == "used?" and fld in repr(conn.expand_all(interned["notify_closed"], x)) for k, mgr, x, truth, site in evs_)
+            if drawn and not consulted and bad is None:
+                bad = (p, "drained; an element is dropped without asking the id manager (identifier leaked)")
         if bad:
             r4.violation(fld, "notify_closed leaves %s as %s" % (fld, bad[1]), conn.path_summary(bad[0]))
         elif not released:
